@@ -117,8 +117,8 @@ Definition murmur3_h1 (data : list Z) : Z :=
   let h1 := if 1 <=? n
             then Z.lxor h1 (mul64 (rotl (mul64 (tail_k1 tail n) K.murmur_c1) 31) K.murmur_c2)
             else h1 in
-  let h1 := Z.lxor h1 length in
-  let h2 := Z.lxor h2 length in
+  let h1 := Z.lxor h1 (i64 length) in            (* h1 ^= int64(length) *)
+  let h2 := Z.lxor h2 (i64 length) in
   let h1 := add64 h1 h2 in
   let h2 := add64 h2 h1 in
   let h1 := fmix h1 in
@@ -243,8 +243,9 @@ Definition select_partitioner (sfx_murmur3 sfx_ordered sfx_random : bool) : opti
   else None.
 
 (* ---- session.go: routing keys ------------------------------------------------------------------ *)
-(* what Marshal(types[i], values[indexes[i]]) returned: bytes or an error (Marshal itself is C12's) *)
-Inductive mres := MOk (b : list Z) | MErr.
+(* what Marshal(types[i], values[indexes[i]]) returned: bytes, (nil, nil) (a nil value), or an error
+   (Marshal itself is C12's) *)
+Inductive mres := MOk (b : list Z) | MNil | MErr.
 
 Inductive rk_out :=
 | RKNil                     (* (nil, nil): no routing key, no error *)
@@ -267,6 +268,7 @@ Fixpoint composite_loop (comps : list (Z * mres)) (nvalues : Z) (buf : list Z) :
       else match m with
            | MErr => RKErr
            | MOk enc => composite_loop rest nvalues (buf ++ len16 enc ++ enc ++ [0])
+           | MNil => composite_loop rest nvalues (buf ++ len16 [] ++ [] ++ [0])
            end
   end.
 
@@ -276,7 +278,7 @@ Definition create_routing_key (info : option (list (Z * mres))) (nvalues : Z) : 
   | None => RKNil
   | Some [(idx, m)] =>
       if (idx <? 0) || (nvalues <=? idx) then RKPanic
-      else match m with MErr => RKErr | MOk enc => RKOk enc end
+      else match m with MErr => RKErr | MOk enc => RKOk enc | MNil => RKNil (* return routingKey(nil), nil *) end
   | Some comps => composite_loop comps nvalues []
   end.
 
